@@ -13,7 +13,7 @@ import kdf, dumpgen
 THEOREMS = ["Kdf.Props.C13." + t for t in (
     "get_after_set", "set_frame", "set_wrong_type_noop", "clear_subtree_unset", "clear_frame",
     "iter_each_set_child_once", "newAttr_wf", "lookup_sound", "clone_falls_back", "clone_private_first",
-    "persist_across_reopen", "volatile_dropped", "ancestors_kept")]
+    "persist_across_reopen", "volatile_dropped", "ancestors_kept", "failed_open_drops_volatile")]
 
 M64 = (1 << 64) - 1
 TYMAP = dict(number="num", address="addr", string="str", bitmap="bmp", blob="blob", directory="dir", nil="nil")
@@ -323,7 +323,7 @@ class World:
         for r in raws:
             s.dealloc_vmci(r.parent)
 
-    def open(s, slot, prov):
+    def open(s, slot, prov, failed=False):
         s.mod += 1
         fs = s.root.kids["file"].kids["set"]
         for d in fs.kids.values():
@@ -352,6 +352,8 @@ class World:
                     a.isset = True; a = a.parent
             else:
                 s.plain(n, tok, fl == "P")
+        if failed:
+            s.clear_volatile()       # open_dump tears a failed probe down: volatile attributes are cleared once more
         s.opened = True
 
 
@@ -878,6 +880,8 @@ class Hist:
             fl = rng.choice([0, 0, 1, 1, 1, 2, 3])
             s.views[d] = clone_view(v, fl)
             s.emit("clone %d %d %d" % (c, d, fl), "clone ok", "exact")
+            # what the clone sees below addrxlat (privately copied when flag 1 is given): values and persistence marks
+            s.emit("dumpat %d addrxlat" % d, s.exp_dumpat(s.views[d], "addrxlat"), "dump")
         elif r < 0.975 and c != 0 and len(s.views) > 1:
             # free a clone whose private nodes nobody else can reach
             if v.chain and any(o is not v and o.chain and v.chain[0] in o.chain for o in s.views.values()):
@@ -892,7 +896,7 @@ class Hist:
             for p, tok, fl in prov:
                 s.emit("prov %s %s %s" % (p, tok, fl), None, "quiet")
             s.emit("openst %s" % st, None, "quiet")
-            s.world.open(c, prov)
+            s.world.open(c, prov, failed=(st != "ok"))
             s.emit("open %d %s" % (c, s.files[f]), "open " + st, "exact", "open#%d" % f)
             s.emit("dump %d" % c, s.exp_dump(), "dump")
 
@@ -955,6 +959,22 @@ class Hist:
         if not s.world.root.isset:
             return None
         rec(s.world.root, "")
+        return out
+
+    def exp_dumpat(s, v, path):
+        n = v.resolve(path)
+        if n is None or not n.isset:
+            return None
+        out = {}
+
+        def rec(n, pre):
+            for k in n.kids.values():
+                if k.isset:
+                    p = pre + k.name
+                    out[p] = (k.show(), "P" if k.persist else "V")
+                    if k.ty == "dir":
+                        rec(k, p + ".")
+        rec(n, path + ".")
         return out
 
     def finish(s):
@@ -1053,25 +1073,29 @@ def run(R):
     lib, cflags = R.build_lib()
     T = key_table(R.tree())
     proof = R.prove(["Kdf.Props.C13"], THEOREMS)
-    exe = R.build_harness("s_attr", ["s_attr.c"])
+    exe = R.build_harness("s_attr", ["s_attr.c"], ldflags=["-Wl,--wrap=_kdumpfile_priv_clear_volatile_attrs"])
     quick = R.tier == "quick"
     nhist = 100 if quick else 12000
     nops = 90 if quick else 130
     files = make_files(R, 6 if quick else 24)
     tl = template_lines(*T)
     # what each file's probe sets: discovered on a fresh context of the implementation
-    probe = "\n".join(tl + sum((["new 15", "set 15 cache.hits nil", "set 15 cache.misses nil", "open 15 %s" % f,
+    probe = "\n".join(tl + sum((["new 15", "set 15 cache.hits nil", "set 15 cache.misses nil", "popen 15 %s" % f,
                                    "dump 15", "free 15"] for f in files), [])) + "\n"
     rc, out, err = R.run_harness(exe, stdin_text=probe)
     po = kdf.obs(out)
     fileinfo = []
-    if rc != 0 or len(po) != 6 * len(files):
+    if rc != 0 or len(po) != 7 * len(files):
         R.violation("opening a generated dump file on a fresh context and walking its attributes by iterators fails: " + err.strip()[:600],
                     dict(stream="attr", stage="fresh-open", files=[os.path.basename(f) for f in files], stderr=err[-1500:]))
         files = []
     for i in range(len(files)):
-        st = po[6 * i + 3].split()[1]
-        fileinfo.append((st, provided_from_dump(parse_dump(po[6 * i + 4]) or [])))
+        st = po[7 * i + 3].split()[1]
+        # a probe that fails is torn down again (volatile attributes cleared): what it had set until then is what the
+        # harness wrote down in front of that second clear_volatile_attrs()
+        pre = po[7 * i + 4]
+        src = ("dump " + pre[len("predump "):]) if (st != "ok" and pre != "predump -") else po[7 * i + 5]
+        fileinfo.append((st, provided_from_dump(parse_dump(src) or [])))
     # scripted probe of a known finding that the random histories must avoid (it blocks the process)
     pf = R.path("c13-probe.elf")
     dumpgen.write_elf(pf, [dict(pfn=1, npages=1, voff=0)])
